@@ -197,12 +197,13 @@ const UNUSUAL_VARIANTS: &[&str] = &[
 ];
 const TYPE_NAMES: &[&str] = &[
     "User", "Account", "Item", "Point", "Shape", "Event", "Config", "Wrapper", "Pair", "Tree", "Msg", "Status", "Inner", "Outer",
-    "Payload", "Record_", "Entry", "Page", "Page2", "Foo", "FooBar", "Bar", "Baz",
+    "Payload", "Record_", "Entry", "Page", "Page2", "Foo", "FooBar", "Bar", "Baz", "AnExtraordinarilyLongTypeNameForTheSakeOfLineWidth",
+    "AnotherRatherLongTypeNameThatGoesOnAndOnAndOn",
 ];
 const UNUSUAL_TYPE_NAMES: &[&str] = &["r#type_", "Größe", "T_1", "_Hidden", "Ünï", "snake_type", "X", "Zz", "r#Match"];
 const RENAME_PLAIN: &[&str] = &["renamed", "Other", "x2", "camelName", "snake_name", "ID"];
-const RENAME_SPECIAL: &[&str] = &["kebab-name", "with space", "1leading", "dollar$", "ünï", "a.b", "a/b", "@at", "#hash", "in", "中文"];
-const RENAME_ESCAPE: &[&str] = &["quo\"te", "back\\slash", "", "new\nline", "tab\there", "a\"b\\c"];
+const RENAME_SPECIAL: &[&str] = &["kebab-name", "with space", "1leading", "dollar$", "ünï", "a.b", "a/b", "@at", "#hash", "in", "中文", "x²", "a½b", "Ⅷ", "x٣", "preis€", "a\u{a0}b", ""];
+const RENAME_ESCAPE: &[&str] = &["quo\"te", "back\\slash", "new\nline", "tab\there", "a\"b\\c"];
 const TAGS: &[&str] = &["tg", "kind_", "$t", "t-g", "T G", "ŧ", "__tag"];
 const CONTENTS: &[&str] = &["ct", "content_", "$c", "c-t", "C T", "ç", "__content"];
 const DOC_LINES: &[&str] = &[
@@ -447,7 +448,7 @@ impl Cx<'_> {
     fn gen_key(&mut self, t: &mut Tape) -> TyExpr {
         let unit_enums: Vec<usize> = (0..self.types.len()).filter(|i| self.unit_enum(*i)).collect();
         let ints = if self.p.serde_buffer_safe { 0 } else { 1 };
-        match t.weighted(&[40, 12 * ints, 8 * ints, 8 * ints, 6, 6 * ints, if unit_enums.is_empty() { 0 } else { 20 }]) {
+        match t.weighted(&[40, 12 * ints, 8 * ints, 8 * ints, 6, 6 * ints, if unit_enums.is_empty() { 0 } else { 30 }]) {
             0 => TyExpr::Prim("String"),
             1 => TyExpr::Prim("i32"),
             2 => TyExpr::Prim("u8"),
@@ -457,7 +458,7 @@ impl Cx<'_> {
             _ => {
                 let k = TyExpr::User(*t.pick(&unit_enums), vec![]);
                 // a key behind a transparent wrapper (`BTreeMap<Box<Region>, _>`)
-                if t.pct(30) {
+                if t.pct(50) {
                     TyExpr::Wrap(*t.pick(&["Box", "Rc", "Arc"]), Box::new(k))
                 } else {
                     k
@@ -583,7 +584,8 @@ impl Cx<'_> {
 
     fn gen_ty_inner(&mut self, t: &mut Tape, params: &[Param], depth: u32, simple: bool) -> TyExpr {
         if depth >= 4 {
-            return TyExpr::Prim(*t.pick(PRIMS));
+            let p = *t.pick(PRIMS);
+            return TyExpr::Prim(if self.p.serde_buffer_safe && (p == "u128" || p == "i128") { "u64" } else { p });
         }
         let deep = depth >= 2 || simple;
         let w_user = if self.types.is_empty() { 0 } else if depth >= 2 { self.p.user_refs / 3 } else { self.p.user_refs };
@@ -996,12 +998,17 @@ impl Cx<'_> {
                 // internally tagged newtype variants must hold something that serialises as a map
                 if repr == Repr::Internal {
                     if let VBody::Newtype(f) = &mut body {
-                        let cands: Vec<usize> = (0..self.types.len()).filter(|i| self.struct_like(*i)).collect();
+                        // (a struct, or - where nothing is deserialised through serde's buffer - an
+                        // enum every value of which is written as a map)
+                        let cands: Vec<usize> = (0..self.types.len())
+                            .filter(|i| self.struct_like(*i) || (!self.p.serde_buffer_safe && matches!(self.types[*i].body, Body::Enum(_)) && self.flattenable(*i)))
+                            .collect();
                         if cands.is_empty() || f.skip {
                             body = VBody::Unit;
                         } else {
                             f.ty = TyExpr::User(*t.pick(&cands), vec![]);
-                            f.inline = false;
+                            // the payload by name, or inlined into the variant
+                            f.inline = t.pct(self.p.inline) && (self.p.known_inline_default || !self.mentions_generic_with_user_default(&f.ty));
                             f.as_same = false;
                             f.type_override = None;
                         }
